@@ -19,7 +19,7 @@ Get(f, c) == IF c \in DOMAIN f THEN f[c] ELSE {}
 GetS(f, c) == IF c \in DOMAIN f THEN f[c] ELSE <<>>
 Put(f, c, v) == [x \in DOMAIN f \cup {c} |-> IF x = c THEN v ELSE f[x]]
 E0 == [x \in {} |-> {}]
-S0 == [done |-> E0, pending |-> E0, failedm |-> E0, applied |-> E0, stack |-> <<>>, depth |-> 0, touched |-> {}, np |-> 0, kindof |-> <<>>, strict |-> TRUE]
+S0 == [done |-> E0, pending |-> E0, failedm |-> E0, applied |-> E0, marked |-> {}, stack |-> <<>>, depth |-> 0, touched |-> {}, np |-> 0, kindof |-> <<>>, strict |-> TRUE]
 
 LastRewrite(s, a) == LET R == {k \in 1..Len(a) : s.kindof[a[k]] = "rewrite"} IN IF R = {} THEN 0 ELSE CHOOSE k \in R : \A j \in R : j <= k
 Checked(s, a) == \E k \in 1..Len(a) : s.kindof[a[k]] = "check" /\ k > LastRewrite(s, a)
@@ -27,14 +27,22 @@ Top(s) == IF s.stack = <<>> THEN [m |-> "", pos |-> 0, cache |-> "", applying |-
 Pop(s) == IF s.stack = <<>> THEN <<>> ELSE SubSeq(s.stack, 1, Len(s.stack) - 1)
 Stale(s) == \E c \in DOMAIN s.pending : s.pending[c] # {}
 
-Step(s, e) ==
-  LET top == Top(s)  c == e.cache
+Step(s_, e) ==
+  LET s == IF e.ev \in {"call_begin", "call_end"} THEN s_ ELSE [s_ EXCEPT !.marked = IF e.elab THEN @ \cup {e.mod} ELSE @]
+      top == Top(s)  c == e.cache
       \* a visit made by a frame that is traversing its children belongs to that frame's pass; inside elaborate_module (apply) and at top level
       \* (or in a nested call) any pass may come next
       same_pass == top.applying \/ Len(s.stack) = top.base \/ (e.pos = top.pos /\ c = top.cache)
   IN
   CASE e.ev = "call_begin" ->
-         [s |-> [s EXCEPT !.depth = @ + 1, !.np = e.np, !.kindof = e.kindof, !.strict = @ /\ e.strict,
+         \* (the purge of unfinished modules' `done` marks: see Trace_Elab)
+         LET cs == Range(e.caches)
+             idle == \A k \in cs : Get(s.pending, k) = {}
+             unfinished == ((UNION {Get(s.done, k) : k \in cs}) \ s.marked) \ UNION {Get(s.failedm, k) : k \in cs}
+             done1 == IF idle THEN [k \in DOMAIN s.done |-> IF k \in cs THEN s.done[k] \ unfinished ELSE s.done[k]] ELSE s.done
+             applied1 == IF idle THEN [m \in DOMAIN s.applied |-> IF m \in unfinished THEN <<>> ELSE s.applied[m]] ELSE s.applied
+         IN
+         [s |-> [s EXCEPT !.depth = @ + 1, !.np = e.np, !.kindof = e.kindof, !.strict = @ /\ e.strict, !.done = done1, !.applied = applied1,
                           !.touched = IF s.depth = 0 THEN {} ELSE @],
           bad |-> IF s.depth > 0 /\ ~top.applying THEN "nested_call_outside_a_pass" ELSE ""]
     [] e.ev = "call_end" ->
@@ -82,7 +90,7 @@ Step(s, e) ==
          LET a1 == Append(GetS(s.applied, e.mod), e.pos)
              ismark == e.pos > 0 /\ s.kindof[e.pos] = "mark"
          IN [s |-> [s EXCEPT !.pending = Put(s.pending, c, Get(s.pending, c) \ {e.mod}), !.done = Put(s.done, c, Get(s.done, c) \cup {e.mod}),
-                             !.applied = Put(s.applied, e.mod, a1), !.stack = Pop(s)],
+                             !.applied = Put(s.applied, e.mod, a1), !.marked = IF ismark THEN @ \cup {e.mod} ELSE @, !.stack = Pop(s)],
              bad |-> IF s.stack = <<>> \/ top.m # e.mod \/ top.applying THEN "exit_not_top_frame"
                      ELSE IF e.mod \notin Get(s.pending, c) THEN "exit_of_module_not_pending"
                      ELSE IF s.strict /\ ismark /\ Len(a1) # s.np THEN "marked_incomplete"
